@@ -78,6 +78,7 @@ ABuild(e) ==
         key == <<b, e.mode, e.norm, e.impl>>
         ok  == e.res.kind = "ok"
         bad == IF ~ValidMode(e.mode) THEN {}
+               ELSE IF ~ValidBatch(b) THEN {"GEN"}       \* outside the input contract: the generator's fault
                ELSE (IF ~ok \/ e.res.count # Len(c.docs) THEN {"C01"} ELSE {})
                     \cup (IF ok /\ e.res.wn # e.res.wlen THEN {"C04"} ELSE {})
                     \cup (IF ok /\ key \in DOMAIN built /\ built[key] # e.res.digest
@@ -90,7 +91,7 @@ ABuild(e) ==
        /\ obs' = Obs("build", {"C01", "C04", "C14"}, bad, Len(c.docs), e.res)
        /\ UNCHANGED <<files, pls, its, dvrs, bms, digs>>
 
-DropSets(e) == [i \in DOMAIN e.drops |-> {e.drops[i].docs[k] : k \in DOMAIN e.drops[i].docs}]
+DropSets(e) == Force([i \in DOMAIN e.drops |-> {e.drops[i].docs[k] : k \in DOMAIN e.drops[i].docs}])
 
 FooterBad(f, c, mode) ==
     \/ f.kind # "footer"
@@ -107,7 +108,7 @@ AMerge(e) ==
         ok    == e.res.kind = "ok"
         anyFailed == \E i \in DOMAIN e.in : segs[e.in[i]].failed
         bad   == IF anyFailed THEN (IF e.res.kind \in {"ok", "err"} THEN {} ELSE {"C19"})
-                 ELSE IF ~ok THEN {"C02"}
+                 ELSE IF ~ok THEN {"C02", "C03"}       \* no merged segment and no document-number map
                  ELSE (IF e.res.docnums # map THEN {"C03"} ELSE {})
                       \cup (IF e.res.n # e.res.delivered THEN {"C11"} ELSE {})
                       \cup (IF FooterBad(e.res.footer, c, e.mode) THEN {"C11"} ELSE {})
@@ -239,7 +240,7 @@ AItOpen(e) ==
        /\ its' = IF e.res.kind = "ok"
                  THEN Put(its, e.it, [seg |-> p.seg, list |-> p.list,
                                       actual |-> ListDocs(p.list) \ p.except, except |-> p.except,
-                                      idx |-> 0, onehit |-> e.onehit,
+                                      idx |-> 0, onehit |-> e.onehit, closed |-> FALSE,
                                       flags |-> [freq |-> e.freq, norm |-> e.norm, locs |-> e.locs],
                                       reuse |-> reuse])
                  ELSE its
@@ -256,6 +257,15 @@ AItReplace(e) ==
     \* on a 1-hit iterator is at fault, not ice
     /\ obs' = Obs("it_replace", {"C05"},
                   IF its[e.it].onehit THEN {"GEN"} ELSE IF e.res.kind = "ok" THEN {} ELSE {"C05"}, <<>>, e.res)
+    /\ UNCHANGED <<segs, files, pls, dvrs, bms, built, digs>>
+
+\* Close(): the caller is done with the iterator.  It never fails; the object may only be handed back
+\* as prealloc afterwards (stepping a closed iterator is outside the contract: the generator's fault).
+\* Every OTHER iteration in progress - whichever object it lives in - continues undisturbed.
+AItClose(e) ==
+    /\ e.it \in DOMAIN its
+    /\ its' = [its EXCEPT ![e.it].closed = TRUE]
+    /\ obs' = Obs("it_close", {"C05"}, IF e.res.kind = "ok" THEN {} ELSE {"C05"}, <<>>, e.res)
     /\ UNCHANGED <<segs, files, pls, dvrs, bms, built, digs>>
 
 \* what a posting looks like through the iterator's flags
@@ -277,7 +287,8 @@ AItStep(e) ==
         props == {"C05"} \cup KindProp(it.seg) \cup GProp(e) \cup (IF it.reuse THEN {"C13"} ELSE {})
         \* a behaviour emitted by a Level-I model carries the model's own expectation: the two
         \* levels of the specification must agree, else the generator (not ice) is at fault
-        gen == IF e.model_exp # -2 /\ e.model_exp # (IF r.kind = "end" THEN -1 ELSE r.p.doc) THEN {"GEN"} ELSE {}
+        gen == (IF e.model_exp # -2 /\ e.model_exp # (IF r.kind = "end" THEN -1 ELSE r.p.doc) THEN {"GEN"} ELSE {})
+               \cup (IF it.closed THEN {"GEN"} ELSE {})
         bad == gen \cup
                (IF ~segs[it.seg].failed
                 THEN IF e.res = exp THEN {} ELSE props
